@@ -4,6 +4,7 @@ import (
 	"crypto/md5"
 	"errors"
 	"fmt"
+	"math"
 	"sort"
 	"sync"
 	"time"
@@ -53,10 +54,17 @@ type msg struct {
 	ts  uint32
 }
 
+// the largest interval, in seconds, that fits in a time.Duration
+const maxInterval = uint(math.MaxInt64 / int64(time.Second))
+
 // New creates an aggregator
 func New(fun string, matcher matcher.Matcher, outFmt string, cache bool, interval, wait uint, dropRaw bool, out chan []byte) (*Aggregator, error) {
 	if interval == 0 {
 		return nil, errors.New("aggregation interval must be at least 1 second")
+	}
+	if interval > maxInterval {
+		// as a time.Duration it overflows, to a negative period or (for multiples of 2^55) to zero
+		return nil, fmt.Errorf("aggregation interval can be at most %d seconds", maxInterval)
 	}
 	ticker := clock.AlignedTick(time.Duration(interval)*time.Second, time.Duration(wait)*time.Second, 2)
 	return NewMocked(fun, matcher, outFmt, cache, interval, wait, dropRaw, out, 2000, time.Now, ticker)
